@@ -206,8 +206,8 @@ REM_HINT = '''
 
 D0 = 'old(self).data@'
 K0 = 'old(self).keys@'
-ID_HIT = f"(bi_denotes::<AnnotationData>(id, Some(old(self).data_idmap.data@), old(self).data_idmap.resolve_temp_ids) is Some && live({D0}, bi_denotes::<AnnotationData>(id, Some(old(self).data_idmap.data@), old(self).data_idmap.resolve_temp_ids).unwrap() as int))"
-KEY_HIT = f"(bi_denotes::<DataKey>(key, Some(old(self).key_idmap.data@), old(self).key_idmap.resolve_temp_ids) is Some && live({K0}, bi_denotes::<DataKey>(key, Some(old(self).key_idmap.data@), old(self).key_idmap.resolve_temp_ids).unwrap() as int))"
+ID_HIT = f"(bi_denotes::<AnnotationData>(id, {D0}, Some(old(self).data_idmap.data@), old(self).data_idmap.resolve_temp_ids) is Some && live({D0}, bi_denotes::<AnnotationData>(id, {D0}, Some(old(self).data_idmap.data@), old(self).data_idmap.resolve_temp_ids).unwrap() as int))"
+KEY_HIT = f"(bi_denotes::<DataKey>(key, {K0}, Some(old(self).key_idmap.data@), old(self).key_idmap.resolve_temp_ids) is Some && live({K0}, bi_denotes::<DataKey>(key, {K0}, Some(old(self).key_idmap.data@), old(self).key_idmap.resolve_temp_ids).unwrap() as int))"
 UNCHANGED_DS = 'final(self).data@ == old(self).data@ && final(self).keys@ == old(self).keys@ && final(self).key_data_map@ == old(self).key_data_map@ && final(self).data_idmap.data@ == old(self).data_idmap.data@ && final(self).key_idmap.data@ == old(self).key_idmap.data@'
 FULL_REQ = [('kd_wf', 'old(self).kd_wf()'),
             ('keys_wf', 'idmap_wf(old(self).keys@, Some(old(self).key_idmap.data@))'),
@@ -218,14 +218,14 @@ FULL_REQ = [('kd_wf', 'old(self).kd_wf()'),
             ('ids_not_temp_form', 'bi_text(id) is Some ==> !is_temp_form::<AnnotationData>(old(self).data_idmap.resolve_temp_ids, bi_text(id).unwrap())'),
             ('key_not_temp_form', 'bi_text(key) is Some ==> !is_temp_form::<DataKey>(old(self).key_idmap.resolve_temp_ids, bi_text(key).unwrap())')]
 FULL_ENS = [
-    ('existing_id', f'{ID_HIT} ==> r is Ok && r->Ok_0.idx() == bi_denotes::<AnnotationData>(id, Some(old(self).data_idmap.data@), old(self).data_idmap.resolve_temp_ids).unwrap() && {UNCHANGED_DS}'),
+    ('existing_id', f'{ID_HIT} ==> r is Ok && r->Ok_0.idx() == bi_denotes::<AnnotationData>(id, {D0}, Some(old(self).data_idmap.data@), old(self).data_idmap.resolve_temp_ids).unwrap() && {UNCHANGED_DS}'),
     ('no_key_no_data', f'!{ID_HIT} && key is None ==> r is Err && {UNCHANGED_DS}'),
     ('unknown_key_by_handle', f'!{ID_HIT} && !(key is None) && !{KEY_HIT} && bi_text(key) is None ==> r is Err && {UNCHANGED_DS}'),
     ('key_kept_or_created', f'r is Ok && !{ID_HIT} ==> (if {KEY_HIT} {{ final(self).keys@ == {K0} && final(self).key_idmap.data@ == old(self).key_idmap.data@ }} else {{ '
                             f'bi_text(key) is Some && final(self).keys@.len() == {K0}.len() + 1 && final(self).keys@.take({K0}.len() as int) =~= {K0} && final(self).keys@.last() is Some && final(self).keys@.last().unwrap().id@ == bi_text(key).unwrap() }})'),
     ('the_pair', f'r is Ok && !{ID_HIT} ==> live(final(self).data@, r->Ok_0.idx() as int) && (final(self).data@[r->Ok_0.idx() as int].unwrap().value == value || veq(final(self).data@[r->Ok_0.idx() as int].unwrap().value, value)) '
-                 f'&& final(self).data@[r->Ok_0.idx() as int].unwrap().key.idx() == (if {KEY_HIT} {{ bi_denotes::<DataKey>(key, Some(old(self).key_idmap.data@), old(self).key_idmap.resolve_temp_ids).unwrap() as int }} else {{ {K0}.len() as int }})'),
-    ('reuses', f'!{ID_HIT} && {KEY_HIT} && id is None && safety && has_pair({D0}, DataKeyHandle(bi_denotes::<DataKey>(key, Some(old(self).key_idmap.data@), old(self).key_idmap.resolve_temp_ids).unwrap() as u16), value) ==> r is Ok && {UNCHANGED_DS}'),
+                 f'&& final(self).data@[r->Ok_0.idx() as int].unwrap().key.idx() == (if {KEY_HIT} {{ bi_denotes::<DataKey>(key, {K0}, Some(old(self).key_idmap.data@), old(self).key_idmap.resolve_temp_ids).unwrap() as int }} else {{ {K0}.len() as int }})'),
+    ('reuses', f'!{ID_HIT} && {KEY_HIT} && id is None && safety && has_pair({D0}, DataKeyHandle(bi_denotes::<DataKey>(key, {K0}, Some(old(self).key_idmap.data@), old(self).key_idmap.resolve_temp_ids).unwrap() as u16), value) ==> r is Ok && {UNCHANGED_DS}'),
     ('appends_at_most_one', f'final(self).data@ == {D0} || (final(self).data@.len() == {D0}.len() + 1 && final(self).data@.take({D0}.len() as int) =~= {D0} && r is Ok && r->Ok_0.idx() == {D0}.len())'),
     ('index_exact', 'r is Ok ==> final(self).kd_wf()'),
     ('vocabulary', 'r is Ok ==> idmap_wf(final(self).keys@, Some(final(self).key_idmap.data@))'),
